@@ -562,6 +562,10 @@ def story_send_shape(W, H, mb):
         ('Shape.no_item_outside_storyBody',
          forall_nodes(1, lambda i: Imp(H.mem(mb, i), H.tag(i) != lit('item')), patterns=lambda i: [H.mem(mb, i)])),
         ('Shape.durations_numeric', timing_ok(W, H, mb)),
+        # any parsed document is a tree: an element has one parent
+        ('Shape.message_is_a_tree',
+         forall_nodes(3, lambda p, q, x: Imp(A(is_msg(x), H.mem(p, x), H.mem(q, x)), p == q),
+                      patterns=lambda p, q, x: [z3.MultiPattern(H.mem(p, x), H.mem(q, x))])),
     ]
 
 
@@ -598,7 +602,7 @@ class ConvertStorySend(Contract):
             z3.ForAll([q, z], Imp(H2.mem(q, z), is_msg(q) == is_msg(z)), patterns=[H2.mem(q, z)]),
             # the result: a fresh <story> that is not linked anywhere
             H2.tag(r) == lit('story'),
-            z3.ForAll([q], z3.Not(H2.mem(q, r)), patterns=[H2.mem(q, r)]),
+            z3.ForAll([q], Imp(born(q) <= c0, z3.Not(H2.mem(q, r))), patterns=[H2.mem(q, r)]),
             H2.find(r, lit('storyID')) == cp(e, H.find(o, lit('storyID'))),
             H2.find(r, lit('storyID')) != null,
             text(H2.find(r, lit('storyID'))) == text(H.find(o, lit('storyID'))),
